@@ -350,6 +350,18 @@ def scenario_error_depth(rng, g):
     return ["(deep %d (lambda () (let () (display %s) %s)))" % (d, pre, e), "(deep 2 (lambda () 5))"]
 
 
+def scenario_deep_reentry(rng, g):
+    """a continuation captured deep inside a non-tail recursion (the VM stack has grown past its initial
+    256 slots from depth 42 on), the evaluation ends, something else runs (possibly a failing form), and the
+    continuation is re-entered from later top-level forms"""
+    g.use("k"), g.use("deep")
+    g.features.add("callcc-reentry"), g.features.add("deep-capture")
+    d = rng.choice([5, 41, 42, 43, 64, 100, 200])
+    mid = rng.choice(["(+ 1 2)", rng.choice(ERRORS), "(deep 3 (lambda () 1))"])
+    return ["(deep %d (lambda () (call/cc (lambda (c) (set! k0 c) 0))))" % d, mid,
+            "(k0 %d)" % rng.choice([1, 1000]), "(begin (set! kn (+ kn 1)) (k0 kn))"]
+
+
 def scenario_effects(rng, g):
     g.use("g")
     g.features.add("set!")
@@ -370,7 +382,7 @@ def scenario_syntax(rng, g):
     return [rng.choice(SYNTAX_ERRORS + ["(car", ")", "#<x>", "(1 . )"]), g.int_(1, [])]
 
 
-SCENARIOS = [scenario_reentry, scenario_generator, scenario_error_depth, scenario_effects, scenario_define, scenario_syntax]
+SCENARIOS = [scenario_reentry, scenario_deep_reentry, scenario_generator, scenario_error_depth, scenario_effects, scenario_define, scenario_syntax]
 
 
 def gen_program(rng, size=2, err_p=0.04):
